@@ -412,7 +412,10 @@ M("M_C16_a", ["C16"], "cotengra/reusable.py",
 M("M_C16_c", ["C16"], "cotengra/presets.py",
   "        tid = threading.get_ident()\n        try:\n            return self._hyperoptimizers_by_thread[tid]",
   "        tid = 0\n        try:\n            return self._hyperoptimizers_by_thread[tid]",
-  "one reusable hyper-optimizer shared by all threads of an AutoOptimizer", ["tests/test_optimizers.py"])
+  "harmless on the current tree: the object that ends up shared by all threads is a ReusableHyperOptimizer, which is itself safe "
+  "to share (per-thread sub-optimizer slot, atomic cache writes; cache=False never reaches this line since fix d34460c). It was "
+  "reported CAUGHT in the round-2 run; in the final run neither the current nor the round-2 version of the check finds anything "
+  "to report with it at seeds 0-2", ["tests/test_optimizers.py"], harmless=True)
 M("M_C16_d", ["C16"], "cotengra/presets.py",
   "        if self._optimizer_hyper_cls is HyperOptimizer:\n",
   "        if self._optimizer_hyper_cls is None:\n",
